@@ -5,17 +5,17 @@ from common import set_field
 NAME = "Fungible"
 
 
-def _mc(flavour, regime="S", bug="", depth=3, tdepth=3, every=40, tevery=8, **over):
-    c = dict(Flavour=flavour, MAXI=1000, Cap=3, Amts={0, 1, 2}, MintAmts={1, 2}, ApprAmts={0, 2},
+def _mc(flavour, regime="S", bug="", depth=3, tdepth=3, every=40, tevery=8, thin=False, **over):
+    c = dict(ThinBlock=thin, Flavour=flavour, MAXI=1000, Cap=3, Amts={0, 1, 2}, MintAmts={1, 2}, ApprAmts={0, 2},
              DUs={0, 2, 19, 20}, WithNeg=True, MinTempTtl=1, MaxTtl=20, Now0=10, Depth=depth,
              EmitEvery=every, BUG=bug)
     if regime == "O":
         c.update(MAXI=7, Cap=6, Amts={1, 6, 7}, MintAmts={1, 6, 7}, ApprAmts={7}, DUs={2}, WithNeg=False)
     c.update(over)
-    name = flavour + ("_O" if regime == "O" else "") + ("_" + bug if bug else "")
+    name = flavour + ("_thin" if thin else "") + ("_O" if regime == "O" else "") + ("_" + bug if bug else "")
     d = dict(name=name, module="MC_Fungible", constants=c, invariants=["NoViolation", "Refines"],
              thorough=dict(Depth=tdepth, EmitEvery=tevery),
-             cfg=dict(flavour=flavour, regime=regime, cap=c["Cap"]))
+             cfg=dict(flavour=flavour, regime=regime, cap=c["Cap"], impl="thin" if thin else "example"))
     if bug:
         d.update(expect="violation", invariants=["NoViolation"], thorough={})
         d["constants"]["EmitEvery"] = 0
@@ -32,12 +32,15 @@ MODEL = dict(
         _mc("base", regime="O", depth=4, tdepth=5, every=4, tevery=10),
         _mc("allowlist", depth=4, tdepth=4, every=60, tevery=6),
         _mc("blocklist", depth=3, tdepth=4, every=1, tevery=6),
+        # BlockList::burn / burn_from are exposed by no example: thin BlockList + burnable contract
+        _mc("blocklist", depth=3, tdepth=4, every=2, tevery=8, thin=True),
         _mc("pausable", depth=4, tdepth=4, every=60, tevery=6),
         _mc("capped", depth=3, tdepth=4, every=1, tevery=6),
         _mc("capped", regime="O", depth=4, tdepth=5, every=2, tevery=10),
         # vacuity guards: seeded model bugs must be seen by the monitors
         _mc("base", bug="self_transfer"),
         _mc("allowlist", bug="burn_not_listed"),
+        _mc("blocklist", bug="burn_not_listed", thin=True),
         _mc("pausable", bug="burn_not_pausable"),
         _mc("capped", bug="cap_off_by_one"),
         _mc("base", bug="no_burn_event"),
